@@ -757,3 +757,72 @@ type %[1]sOut struct {
 	f.add(p+"C", b.String())
 	return f
 }
+
+// famUnderlying: useUnderlyingTypeMethods — an extend function between the UNDERLYING types of named basics is used
+// for the named pair at every position; with a context parameter it needs that context in the calling method (C06).
+func famUnderlying(r *rng.R, id int) *famOut {
+	p := fmt.Sprintf("Ux%d", id)
+	f := &famOut{}
+	withCtx := r.Chance(50)
+	fallible := r.Chance(40)
+	f.Types = fmt.Sprintf(`type %[1]sRaw string
+type %[1]sClean string
+type %[1]sIn struct {
+	Name %[1]sRaw
+	Tags []%[1]sRaw
+	M    map[string]%[1]sRaw
+	P    *%[1]sRaw
+	Same string
+}
+type %[1]sOut struct {
+	Name %[1]sClean
+	Tags []%[1]sClean
+	M    map[string]%[1]sClean
+	P    *%[1]sClean
+	Same string
+}
+`, p)
+	params, args := "s string", "s"
+	doc := ""
+	if withCtx {
+		params, args = "s string, ctxTag string", "s, ctxTag"
+		doc = "// goverter:context ctxTag\n"
+	}
+	name := "Norm" + p
+	if fallible {
+		f.Custom = fmt.Sprintf("%sfunc %s(%s) (string, error) {\n\tif rt.Fails(%q, s) {\n\t\treturn \"\", rt.Boom(%q)\n\t}\n\treturn rt.Stamp(%q, %s), nil\n}\n\n", doc, name, params, name, name, name, args)
+		f.FailOn = append(f.FailOn, [2]string{name, "poison"})
+	} else {
+		f.Custom = fmt.Sprintf("%sfunc %s(%s) string {\n\treturn rt.Stamp(%q, %s)\n}\n\n", doc, name, params, name, args)
+	}
+	var b strings.Builder
+	b.WriteString("// goverter:converter\n// goverter:extend " + name + "\n")
+	if r.Chance(80) {
+		b.WriteString("// goverter:useUnderlyingTypeMethods\n")
+	}
+	if wm := rng.Pick(r, wrapModes); wm != "" {
+		b.WriteString("// goverter:" + wm + "\n")
+	}
+	b.WriteString("type " + p + "C interface {\n")
+	res := func(t string) string {
+		if fallible {
+			return "(" + t + ", error)"
+		}
+		return t
+	}
+	if withCtx {
+		b.WriteString("\t// goverter:context ctxTag\n\tWithCtx(source " + p + "In, ctxTag string) " + res(p+"Out") + "\n")
+		if r.Chance(50) {
+			// the context is NOT available here: generation must fail (the function exists but cannot be called)
+			b.WriteString("\tNoCtx(source " + p + "In) " + res(p+"Out") + "\n")
+		}
+	} else {
+		b.WriteString("\tConvert(source " + p + "In) " + res(p+"Out") + "\n")
+		if r.Bool() {
+			b.WriteString("\tOne(source " + p + "Raw) " + res(p+"Clean") + "\n")
+		}
+	}
+	b.WriteString("}\n\n")
+	f.add(p+"C", b.String())
+	return f
+}
